@@ -26,7 +26,7 @@ PROPS = {
         "driver": "c04", "trace_spec": "TraceBodyWriter",
         "mc_quick": [mc("MCBodyWriter", "MCBodyWriter_sized_impl.cfg"), mc("MCBodyWriter", "MCBodyWriter_sized_abs.cfg")],
         "mc_thorough": [mc("MCBodyWriter", "MCBodyWriter_sized_impl.cfg"), mc("MCBodyWriter", "MCBodyWriter_sized_abs_thorough.cfg", workers=8)],
-        "require_classes": ["w:err", "dw:ok", "dw:err", "w:sized-empty"],
+        "require_classes": ["w:err", "dw:ok", "dw:err", "w:sized-empty", "w:overshoot"],
         "rule": "one case = a fresh Content-Length writer with N and a seeded schedule of write / direct-write / empty / overshooting calls; "
                 "distinct = distinct (api, N, schedule style)",
         "assumptions": BW_ASSUME,
@@ -50,4 +50,26 @@ PROPS = {
                 "or one whole-body send loop with a fixed buffer; distinct = distinct (buffer length, input length) / loop configuration",
         "assumptions": BW_ASSUME,
     },
+}
+
+BR_ASSUME = ["response bodies are reached through a GET exchange whose head is delivered in one call (head parsing is C05's subject)"]
+
+PROPS["C07"] = {
+    "driver": "c07", "trace_spec": "TraceBodyReader", "scripts": "dechunk",
+    "mc_quick": [mc("MCDechunk", "MCDechunk_q1.cfg", workers=6), mc("MCDechunk", "MCDechunk_q2.cfg", workers=6)],
+    "mc_thorough": [mc("MCDechunk", "MCDechunk_q1.cfg", workers=6), mc("MCDechunk", "MCDechunk_thorough.cfg", workers=16, timeout=3000, heap="12g")],
+    "require_classes": ["r:consume-only", "r:nothing", "r:filled-output"],
+    "require_kinds": ["r", "verdict"],
+    "rule": "one case = one valid chunked coding (model table, small-scope grammar, hex-digit boundary sizes, random) + one arrival/buffer/stop schedule "
+            "(model edge-cover script, exhaustive cut set, single/double cut, 1-byte arrivals, random); distinct = distinct (family, coding index / shape)",
+    "assumptions": BR_ASSUME + ["codings keep every size line within the decoder's 20-byte sanity limit"],
+}
+PROPS["C08"] = {
+    "driver": "c08", "trace_spec": "TraceBodyReader",
+    "mc_quick": [mc("MCBodyReader", "MCBodyReader.cfg"), mc("MCBodyReader", "MCBodyReader_close.cfg")],
+    "mc_thorough": [mc("MCBodyReader", "MCBodyReader_thorough.cfg", workers=8), mc("MCBodyReader", "MCBodyReader_close.cfg")],
+    "require_classes": ["r:nothing", "r:filled-output", "verdict:close", "r:streamed-4g"],
+    "rule": "one case = a Content-Length body of N bytes followed by bytes of a next response (or a close-delimited body) + an arrival/buffer schedule; "
+            "distinct = distinct (api, N, buffer sizes)",
+    "assumptions": BR_ASSUME,
 }
